@@ -31,10 +31,12 @@ pub struct Error;
 /// Every error is a verdict here (the documents are produced by the serializer under test or are valid by construction), so under
 /// Kani an error ends the path with a failed check instead of flowing on as a value: error paths that re-join the main path would
 /// make the read position symbolic for the solver.
+/// The `missing_*` harnesses read fully concrete documents in which an error is an *expected* outcome; they switch to errors as values.
+pub static mut SOFT_ERRORS: bool = false;
 #[inline(always)]
 fn fail() -> Error {
     #[cfg(kani)]
-    panic!("serialisation / deserialisation reported an error");
+    if !unsafe { SOFT_ERRORS } { panic!("serialisation / deserialisation reported an error"); }
     #[allow(unreachable_code)]
     Error
 }
@@ -246,6 +248,20 @@ pub fn omitted(max_size: u64, with_timeouts: bool, with_mode: bool, inner: u8) -
     PoolConfig::deserialize(&mut d).map_err(|_| "a document that omits optional sections is rejected")
 }
 
+/// a document that does NOT name `max_size` (only, depending on the flags, the optional sections).  `max_size` has no serde default: the
+/// documented default (`cpu_count * 4`) is that of `PoolConfig::default()`.  Such a document is either rejected or - should the
+/// field ever become optional - must come out with that documented value; it must not silently become some other number.
+pub fn missing_max_size(with_timeouts: bool, with_mode: bool) -> Result<PoolConfig, &'static str> {
+    let mut t = Toks::new();
+    let mut p = |x: Tok| { let _ = t.push(x); };
+    p(Tok::Struct("PoolConfig"));
+    if with_timeouts { p(Tok::Field("timeouts")); p(Tok::Struct("Timeouts")); p(Tok::Field("wait")); p(Tok::None); p(Tok::End); }
+    if with_mode { p(Tok::Field("queue_mode")); p(Tok::UnitVariant("Lifo")); }
+    p(Tok::End);
+    let mut d = De { t: &t, pos: 0 };
+    PoolConfig::deserialize(&mut d).map_err(|_| "rejected")
+}
+
 #[cfg(kani)]
 mod proofs {
     use super::*;
@@ -278,6 +294,16 @@ mod proofs {
         assert!(c.max_size == ms as usize && c.timeouts.wait.is_none() && c.timeouts.create.is_none() && c.timeouts.recycle.is_none() && same_mode(c.queue_mode, QueueMode::Fifo),
                 "an omitted section did not take its documented default");
     }
+    fn missing(wt: bool, wm: bool) {
+        unsafe { SOFT_ERRORS = true; }
+        let r = missing_max_size(wt, wm);
+        kani::cover!(true, "vacuity witness: the document was read to the end");
+        // cpu_count * 4 with cpu_count >= 1 is a positive multiple of 4 (the exact number needs /proc and is compared in the native replay)
+        assert!(match r { Err(_) => true, Ok(c) => c.max_size >= 4 && c.max_size % 4 == 0 },
+                "a document that omits max_size was accepted with a value that cannot be the documented default cpu_count * 4");
+    }
+    macro_rules! missing_proofs { ($($name:ident = ($t:expr, $m:expr)),* $(,)?) => { $( #[kani::proof] #[kani::unwind(13)] fn $name() { missing($t, $m); } )* } }
+    missing_proofs!(missing_max_size_only = (false, false), missing_max_size_timeouts = (true, false), missing_max_size_mode = (false, true), missing_max_size_both = (true, true));
     macro_rules! omit_proofs { ($($name:ident = ($t:expr, $m:expr, $i:expr)),* $(,)?) => { $( #[kani::proof] #[kani::unwind(13)] fn $name() { omit($t, $m, $i); } )* } }
     omit_proofs!(omitted_all = (false, false, 0), omitted_timeouts = (false, true, 0), omitted_mode = (true, false, 7), timeouts_empty = (true, true, 0),
                  timeouts_only_wait = (true, false, 1), timeouts_only_create = (true, false, 2), timeouts_only_recycle = (true, true, 4), timeouts_two = (true, false, 5));
